@@ -768,7 +768,7 @@ static void op_obj(int argc, char** argv)
 
 /* on-curve predicates with non-canonical coordinates:
    ecpon <p> <a> <b> <x> <y> <kx> <ky>: the coordinates of the field representation plus kx·p / ky·p (must fit n words)
-   ec2on <m> <k1> <k2> <k3> <A> <B> <x> <y> <hx> <hy>: bits hx / hy placed at position m and above (must fit n words) */
+   ec2on <m> <k1> <k2> <k3> <A> <B> <x> <y> <hx> <hy>: x + hx(t)·f(t), y + hy(t)·f(t) (degree must fit n words) */
 static word c12_pt[2 * 160];
 static void op_on(int argc, char** argv)
 {
@@ -831,10 +831,20 @@ static void op_on(int argc, char** argv)
 			if ((room < 64 && ((hx >> room) || (hy >> room))) ) printf("nofit");
 			else
 			{
+				/* non-canonical representatives of the same residues: x + hx(t)·f(t), y + hy(t)·f(t) */
 				for (j = 0; j < 64 && j < room; ++j)
 				{
-					if ((hx >> j) & 1) wwSetBit(pt, m + j, 1);
-					if ((hy >> j) & 1) wwSetBit(pt + n, m + j, 1);
+					static word sh[160];
+					size_t i;
+					if (!(((hx | hy) >> j) & 1)) continue;
+					wwSetZero(sh, n + 1);
+					wwCopy(sh, ec->f->mod, n + (m % B_PER_W == 0));
+					wwShHi(sh, n + 1, j);
+					for (i = 0; i < n; ++i)
+					{
+						if ((hx >> j) & 1) pt[i] ^= sh[i];
+						if ((hy >> j) & 1) pt[n + i] ^= sh[i];
+					}
 				}
 				printf("1 %d", ec2IsOnA(pt, ec, objEnd(ec, void)) ? 1 : 0);
 			}
